@@ -96,16 +96,17 @@ func stdSeqJoin(_ context.Context, joiner, subject rel.Value) (rel.Value, error)
 	case rel.EmptySet:
 		return rel.None, nil
 	case rel.Array:
-		switch subject.Values()[0].(type) {
-		case rel.String:
-			// if subject is rel.String
-			return strJoin(joiner, subject)
-		case rel.Value:
-			if _, isStr := joiner.(rel.String); isStr {
+		// An array of strings may start with the empty string, which is the
+		// empty set, so look for the first string rather than at element 0.
+		for _, value := range subject.Values() {
+			if _, isStr := value.(rel.String); isStr {
 				return strJoin(joiner, subject)
 			}
-			return arrayJoin(joiner, subject)
 		}
+		if _, isStr := joiner.(rel.String); isStr {
+			return strJoin(joiner, subject)
+		}
+		return arrayJoin(joiner, subject)
 	case rel.Bytes:
 		if _, isSet := joiner.(rel.GenericSet); isSet {
 			return subject, nil
